@@ -498,7 +498,6 @@ func removeAll(p string) error {
 	return removeTree(filepath.Clean(p))
 }
 
-
 func canonicalJSON(b []byte) []byte {
 	var v interface{}
 	if len(b) == 0 || json.Unmarshal(b, &v) != nil {
